@@ -188,7 +188,7 @@ tracked for another height.  Re-checked against the Go source on every run. -/
 theorem C09_source_shape :
     Gen.C09.newBlockLocked = true ∧ Gen.C09.addLocked = true ∧
     Gen.C09.bucketCond = "height <= bestHeight" ∧
-    Gen.C09.addExpiredCond = "expiry <= w.bestHeight" ∧
+    Gen.C09.addExpiredCond = "expiry <= bestHeight" ∧
     Gen.C09.overdueSkipCond = "!ok || blockHeight != curExpiry" ∧
     Gen.C09.mutexUses = ["NewBlock:w.expirationsMtx.Lock()", "NewBlock:defer w.expirationsMtx.Unlock()",
       "AddAccountExpiration:w.expirationsMtx.Lock()", "AddAccountExpiration:defer w.expirationsMtx.Unlock()"] := by
